@@ -48,3 +48,23 @@ Fixpoint atomic (seen_open : bool) (items : list ev) : bool :=
   | EOpenWrite :: r => atomic true r
   | EOtherCall _ :: r => atomic seen_open r
   end.
+
+(* (4) maybe_replace_function_return_type: the two string edits of a def header *)
+Definition remove_return_typ (statement : str) : str :=
+  rstrip (slice_to statement (rfind (s2l "->") statement)) ++ s2l ":".
+Definition rpartition_colon (s : str) : str * str * str :=
+  match rfind (s2l ":") s with
+  | Zneg _ => ([], [], s)
+  | i => (slice_to s i, s2l ":", slice_from s (i + 1))
+  end.
+Definition add_return_typ (statement return_typ : str) : str :=
+  let '(pre, col, post) := rpartition_colon statement in
+  pre ++ s2l " -> " ++ return_typ ++ col ++ post.
+(* cur / new: the return annotation before and after (None = absent); None result = header left alone *)
+Definition retype_header (value : str) (cur new : option str) : option str :=
+  match cur, new with
+  | None, None => None
+  | Some c, Some n => if str_eqb c n then None else Some (add_return_typ (remove_return_typ value) n)
+  | Some _, None => Some (remove_return_typ value)
+  | None, Some n => Some (add_return_typ value n)
+  end.
